@@ -91,6 +91,22 @@ def modules():
     SD2 = scen.data_block("SD2", [0xD5])
     H = {"n": "H", "k": "c", "i": [["o", 18], ["ret"]], "f": "g", "e": True, "cfi": {"0": [SP, DEF], "2": [EP]}}
     out["split-by-data"] = scen.spec_of([S1, SD, S2, SD2, H])
+    # the blocks behind the first one carry no directive at offset 0 but structural ones further in: when a deleted
+    # predecessor's startproc is re-homed onto them, their table gets offset 0 *after* the larger offsets
+    K1 = {"n": "K1", "k": "c", "i": [["o", 19]], "f": "f", "e": True, "cfi": {"0": [SP]}}
+    K2 = {"n": "K2", "k": "c", "i": [["o", 20], ["o", 21], ["o", 22]], "f": "f", "e": False, "cfi": {"1": [REM], "2": [RBX]}}
+    K3 = {"n": "K3", "k": "c", "i": [["o", 23], ["o", 24], ["ret"]], "f": "f", "e": False, "cfi": {"1": [RES], "3": [EP]}}
+    # (no CFA definition in this procedure: nothing a deletion drops can make a later directive unevaluable)
+    K4 = {"n": "K4", "k": "c", "i": [["o", 25], ["ret"]], "f": "g", "e": True, "cfi": {"0": [SP, DEF], "2": [EP]}}
+    out["late-keys"] = scen.spec_of([K1, K2, K3, K4])
+    # the same tables as two-procs / dense, written into the aux data in descending offset order
+    for base in ("two-procs", "dense"):
+        sp = copy.deepcopy(out[base])
+        for s in sp["sections"]:
+            for b in s["blocks"]:
+                if b.get("cfi"):
+                    b["cfi_desc"] = True
+        out[base + "-desc"] = sp
     return out
 
 
@@ -162,6 +178,7 @@ def check(spec, mods):
         "r_whole_block_deleted": any(m["op"] == "del" and m["k"] == 0 and m["n"] == len(Lg.block_of(spec, m["b"])[1]["i"]) for m in mods),
         "r_deleted_cie_prefix": _deleted_cie_prefix(spec, mods),
         "r_patch_cfi": any(m["op"] in ("ins", "rep") and isinstance(m["p"], list) and any(t[0] == "cfi" for t in m["p"]) for m in mods),
+        "r_at_start_behind_deleted_endproc": _ins_behind_deleted_endproc(spec, mods),
     }
     nlab = max([sum(1 for t in m["p"] if t[0] == "lab") for m in mods if m["op"] in ("ins", "rep") and isinstance(m["p"], list)] or [0])
     if nlab:
@@ -214,8 +231,42 @@ def check(spec, mods):
                 # patch code inside a procedure must be covered by it
                 if (st_exp.get(k) is not None) != (st_obs[k] is not None):
                     diffs.append(C.D("cfi-patch-coverage", at=list(k), r_expected_inside=st_exp.get(k) is not None, **roles))
+        # (2') the procedures partition the instructions (survivors and patch code) the way they do in the edited
+        # listing: "opened and closed exactly once and in order", "inserted code is covered by *that* procedure"
+        if err_exp is None:
+            pe, po = cfieval.procs(E), cfieval.procs(O)
+            fwd, bwd = {}, {}
+            for k, rec in sorted(E.insns.items()):
+                if rec["bk"] != "c" or k not in po or pe.get(k) is None or po[k] is None:
+                    continue
+                a, b = pe[k], po[k]
+                if fwd.setdefault(a, b) != b or bwd.setdefault(b, a) != a:
+                    diffs.append(C.D("cfi-instruction-in-other-procedure", at=list(k), r_src=("patch" if rec["uid"][0] == "patch" else "orig"), **roles))
+                    break
     outcome = "ok" if not diffs else "diff:" + ",".join(sorted({d["kind"] for d in diffs}))
     return outcome, diffs, E
+
+
+def _ins_behind_deleted_endproc(spec, mods):
+    """request pattern: code is inserted at offset 0 of a block (or replaces its first instructions) and the code
+    block(s) right in front of it are wholly deleted in the same request and carried a .cfi_endproc: the endproc is
+    re-homed onto offset 0 of the target block, and split_block keeps inserted code *in front of* an endproc found at
+    the split offset"""
+    gone = {}
+    for m in mods:
+        if m["op"] == "del":
+            gone[m["b"]] = gone.get(m["b"], 0) + m["n"]
+    whole = {bn for bn, cnt in gone.items() if cnt == len(Lg.block_of(spec, bn)[1]["i"])}
+    for s_ in spec["sections"]:
+        names = [b["n"] for b in s_["blocks"]]
+        for m in mods:
+            if m["op"] in ("ins", "rep") and m["k"] == 0 and m["b"] in names:
+                i = names.index(m["b"]) - 1
+                while i >= 0 and names[i] in whole:
+                    if any(d[0] == ".cfi_endproc" for ds in (s_["blocks"][i].get("cfi") or {}).values() for d in ds):
+                        return True
+                    i -= 1
+    return False
 
 
 def declined_outside_proc(st_exp, E, mid):
